@@ -87,6 +87,19 @@ func (g G) files() []dump.File {
 		}
 		sb.WriteString(" }")
 		fmt.Fprintf(sb, " leaf ref%d { type identityref { base %s; } }", i, g.Names[i])
+		// ... and the same through a typedef chain declared next to it
+		base := g.Names[i]
+		if g.OwnPfx {
+			base = own[owner(g.Place[i])] + ":" + base
+		}
+		fmt.Fprintf(sb, " typedef td%d { type identityref { base %s; } } typedef te%d { type td%d; } leaf tref%d { type te%d; }", i, base, i, i, i, i)
+	}
+	if (g.SubPfx || g.SubSwap) && g.firstInB() != "" {
+		// identityref typedefs in the submodule whose base is spelled with a prefix only that file binds
+		fmt.Fprintf(body[2], " typedef tz { type identityref { base z:%s; } } leaf trz { type tz; }", g.firstInB())
+	}
+	if g.SubSwap {
+		fmt.Fprintf(body[2], " typedef tx { type identityref { base %s:%s; } } typedef ty { type tx; } leaf trx { type ty; }", imp[0], g.firstInB())
 	}
 	if g.SubSwap {
 		var cb strings.Builder
@@ -248,6 +261,10 @@ func runOnce(g G, ord []int, x *explore.X, split int) (f *fail, signature string
 				f = &fail{"identityref-points-at-another-identity", key(i), dump.Type(leafType(leaf), 0)}
 				return
 			}
+			if tl := yang.ToEntry(mod).Dir[fmt.Sprintf("tref%d", i)]; tl == nil || tl.Type == nil || tl.Type.IdentityBase != id {
+				f = &fail{"identityref-typedef-points-at-another-identity", key(i), dump.Type(leafType(tl), 0)}
+				return
+			}
 			// the module entry lists the module's own identities
 			found := false
 			for _, x := range yang.ToEntry(ms.Modules[[]string{"a", "b", "a"}[g.Place[i]]]).Identities {
@@ -260,7 +277,23 @@ func runOnce(g G, ord []int, x *explore.X, split int) (f *fail, signature string
 				return
 			}
 		}
+		if (g.SubPfx || g.SubSwap) && g.firstInB() != "" {
+			if tl := yang.ToEntry(ms.Modules["a"]).Dir["trz"]; tl == nil || tl.Type == nil || tl.Type.IdentityBase != ids["1:"+g.firstInB()] {
+				f = &fail{"identityref-typedef-points-at-another-identity", "trz (typedef in the submodule, base z:" + g.firstInB() + ") -> 1:" + g.firstInB(), dump.Type(leafType(tl), 0)}
+				return
+			}
+		}
 		if g.SubSwap {
+			var cid *yang.Identity
+			for _, id := range ms.Modules["c"].Identity {
+				if id.Name == g.firstInB() {
+					cid = id
+				}
+			}
+			if tl := yang.ToEntry(ms.Modules["a"]).Dir["trx"]; tl == nil || tl.Type == nil || cid == nil || tl.Type.IdentityBase != cid {
+				f = &fail{"identityref-typedef-points-at-another-identity", "trx (typedef in the submodule, the prefix means module c there) -> 3:" + g.firstInB(), dump.Type(leafType(tl), 0)}
+				return
+			}
 			// module c: the namesake of b's first identity has exactly the submodule's extra
 			// identity below it, the others nothing
 			extra := ids["2:extra"]
@@ -538,7 +571,7 @@ func replay(tier string, raw json.RawMessage) (bool, string, string) {
 func init() {
 	core.Register(&core.Prop{
 		ID: "C11", Variant: "order", Shards: shards, Run: run, Replay: replay,
-		Rule:        "every labelled derivation graph within the bound, every placement, naming, prefix regime and base spelling is rendered as module a (with submodule as) and module b importing each other, with one identityref leaf per identity, and loaded in all 6 orders, in one go and with an additional Process after the first or the second file (and, where equal names or a shared prefix make ties possible, under every single deviation of map iteration order on the instrumented build). Oracle: reverse reachability in the generated graph - Values of every identity is exactly the set of identities deriving from it, without duplicates and without itself; the sequences are identical in every explored execution; Type.IdentityBase of each identityref leaf is the identity object its base names; an undefined base or any cycle gives an error. states = distinct programs; non-trivial = acyclic programs",
+		Rule:        "every labelled derivation graph within the bound, every placement, naming, prefix regime and base spelling is rendered as module a (with submodule as) and module b importing each other, with one identityref leaf per identity (written directly and through a two-level typedef chain; in the file-local prefix regimes also typedefs in the submodule whose base carries a prefix only the submodule binds), and loaded in all 6 orders, in one go and with an additional Process after the first or the second file (and, where equal names or a shared prefix make ties possible, under every single deviation of map iteration order on the instrumented build). Oracle: reverse reachability in the generated graph - Values of every identity is exactly the set of identities deriving from it, without duplicates and without itself; the sequences are identical in every explored execution; Type.IdentityBase of each identityref leaf is the identity object its base names; an undefined base or any cycle gives an error. states = distinct programs; non-trivial = acyclic programs",
 		Assumptions: []string{"equal identity names occur only in different modules (a module and its submodules share one name space)", "the instrumented copy behaves like the original under canonical order (suite run on it each time)"},
 	})
 }
